@@ -71,6 +71,16 @@ CHECKS = {
             "All 30 (D,L) cells: every Gaussian component of every explored execution is compared with the Box-Muller transform of its designated pair (layout loop-major, last sine dropped for odd D*L).",
             "Trusted: libm sqrt/log/sin/cos as reference.",
             "DESIGN.md §5/C13"),
+    "C02": ("sampler", "model_checking",
+            "stateless deviation-bounded exploration into hypercube corners (xi alphabet 2^-1074..1-2^-53, interval-end selections), exact N_T, c_min, C_sum, U, F per execution",
+            "Every sector of every admissible configuration is explored with up to k extreme answers (full product when small) in two routings; at each execution the implementation's own logged tropical polynomials must bound the exactly computed U and V as the property states, and jacobian/normalisation as well as the returned (u_trop/u)^(D/2)(v_trop/v)^dod must lie in the graph-and-kinematics-only interval.",
+            "Trusted: oracle polynomials; cancellation ratio of V <= 1e8 decided exactly by the oracle, never from the returned value.",
+            "DESIGN.md §5/C02"),
+    "C06": ("c06", "model_checking",
+            "explicit enumeration of every reachable subgraph (state) of every accepted configuration; boundary-adjacent answer alphabet per state; 100% of lattice transitions witnessed",
+            "For every oracle-accepted configuration in scope and every subset g with |g|>=2 the real sampler is driven to g and given every u of an alphabet built from the exact cumulative sums of its own table (interval ends, f64 neighbours of every boundary, 0, 2^-1074, 1-2^-52, 1-2^-53); the selected edge is read from the log and compared with the exact inversion; any panic is a violation.",
+            "Trusted: exact rational cumulative sums of the implementation's table values; removal order read through the `log` feature.",
+            "DESIGN.md §5/C06"),
 }
 
 NOT_BUILT_REASON = "check not built yet in this session (see DESIGN.md §10 for the plan); not claimed until it passes and has been mutation-tested"
